@@ -103,6 +103,9 @@ class _StatsModelsAdapter(_OptionalForecastingHorizonMixin, _SktimeForecaster):
 
 
 def _coerce_int_to_range_index(y, X=None):
+    if len(y) == 0:
+        # nothing to coerce, empty series are rejected by the input checks
+        return y, X
     new_index = pd.RangeIndex(y.index[0], y.index[-1] + 1)
     try:
         np.testing.assert_array_equal(y.index, new_index)
